@@ -1474,7 +1474,7 @@ func genCacheOps(r *rng, p *plan.Plan, focus, arm string) {
 		}
 		delay := func() int64 { return r.i64(200, 40_000) }
 		t.Acts = []plan.UpAction{{Kind: "reply", DelayUs: delay()}}
-		tcRefresh, twinMiss := false, false
+		tcRefresh, twinMiss, leftover := false, false, false
 		switch focus {
 		case "C19":
 			// the refresh: slow, failing, or negative
@@ -1508,7 +1508,24 @@ func genCacheOps(r *rng, p *plan.Plan, focus, arm string) {
 			if r.p(0.15) {
 				t.Acts = append([]plan.UpAction{{Kind: []string{"silent", "fin", "garbage"}[r.intn(3)], Raw: []byte{9}, DelayUs: delay()}}, t.Acts...)
 			}
-			if a.Rcode == 0 && a.Bits&refdns.BitTC == 0 && life >= 4 && r.p(0.15) {
+			if a.Rcode == 0 && a.Bits&refdns.BitTC == 0 && r.p(0.12) {
+				// an entry expires; right afterwards - its remains may still sit in
+				// the backend - two queries miss together and their exchanges come
+				// back in the same instant, one with an error, one with the answer
+				alt := *a
+				alt.Rcode, alt.NAn = []int{2, 5, 3}[r.intn(3)], 0
+				life = int64(r.rng(2, 4))
+				a.TTLs = []uint32{uint32(life)}
+				t.Ans2, t.Ans2Only = &alt, []int{[]int{1, 2}[r.intn(2)]}
+				d := r.i64(2_000, 30_000)
+				t.Acts = []plan.UpAction{{Kind: "reply", DelayUs: r.i64(2_000, 20_000)}, {Kind: "reply", DelayUs: d}, {Kind: "reply", DelayUs: d + r.i64(-30, 30)}, {Kind: "reply", DelayUs: delay()}}
+				leftover = true
+				// the two answers have to reach the proxy within microseconds of
+				// each other: a quiet network, and scheduling points switched on
+				rp.Net.UpLatUs = [2]int64{50, 60}
+				p.Knobs.YieldDensity, p.Knobs.YieldMask = 0.9, 0
+			}
+			if !leftover && a.Rcode == 0 && a.Bits&refdns.BitTC == 0 && life >= 4 && r.p(0.15) {
 				// two first queries miss together; the upstream answers the first
 				// exchange properly and the second, a little later, with an error:
 				// the error arrives while the positive entry is fresh
@@ -1544,6 +1561,10 @@ func genCacheOps(r *rng, p *plan.Plan, focus, arm string) {
 			nops = 3
 		}
 		span := life * 1_000_000 * int64(r.rng(1, 3))
+		leftoverGap := r.rng(0, 2_200_000)
+		if leftover {
+			nops = 6
+		}
 		// a real burst: several hits while one refresh is in flight and when
 		// its answer is stored (the spread follows the refresh's duration)
 		burstAt, burstSpread, rd := int64(0), int64(0), int64(0)
@@ -1561,6 +1582,12 @@ func genCacheOps(r *rng, p *plan.Plan, focus, arm string) {
 			switch {
 			case i == 0:
 				at = t0
+			case leftover && (i == 1 || i == 2):
+				// (the backend's clock ticks once a second: 2 s after the expiry
+				// time nothing is a hit any more)
+				at = t0 + life*1_000_000 + 300_000 + int64(leftoverGap) + int64(i-1)*r.i64(0, 40)
+			case leftover && i < 7:
+				at = t0 + life*1_000_000 + 600_000 + int64(leftoverGap) + r.i64(0, life*700_000)
 			case twinMiss && i == 1:
 				at = t0 + r.i64(100, 1500) // misses too: the first exchange is still out
 			case twinMiss && i < 5:
